@@ -57,7 +57,10 @@ def const_or_name(v: Any) -> Sym:
         f: Sym = ("n", parts[0])
         for p_ in parts[1:]:
             f = ("a", f, p_)
-        return ("call", f, tuple(C(a) for a in v.args), ())
+        t = ("call", f, tuple(C(a) for a in v.args), ())
+        if parts != ["struct", "Struct"]:
+            FUNCTION_REFS.add(t)        # a factory call kept in a table of callables: what it returns is a callable
+        return t
     if type(v).__name__ == "SymLambda":
         t = ("opaque", str(v))
         MODULE_LAMBDAS[str(v)] = v.node
